@@ -109,9 +109,11 @@ impl log::Log for FlexiLogger {
                 .unwrap_or_default()
                 .split(',')
                 .collect();
-            for t in targets {
+            for (i, t) in targets.iter().copied().enumerate() {
                 if t == "_Default" {
                     use_default = true;
+                } else if targets[..i].contains(&t) {
+                    // a name that is listed twice is served once
                 } else {
                     match self.other_writers.get(t) {
                         None => {
